@@ -86,7 +86,6 @@ theorem pairKitS (sc : String → Bool) (cfg : Cfg) (base : List String) :
     InvKitB (recEnv sc cfg) (Paired base) (fun _ => True) NotYR where
   nUser := fun x hx => by
     constructor <;> (intro e; rw [e] at hx; exact absurd hx (by decide))
-  nValue := by unfold NotYR; decide
   int := fun _ => trivial
   str := fun _ => trivial
   noneV := trivial
@@ -208,11 +207,18 @@ theorem pairKit (sc : String → Bool) (cfg : Cfg)
   toInvKitB := pairKitS sc cfg base
   yieldE := fun st x hp _ => ⟨pair_yieldE sc cfg hYR base st x hp, resQ_true _⟩
 
-theorem notYR_marks (y : String) : NotYR ("#loop_" ++ y) ∧ NotYR ("#endloop_" ++ y) := by
-  refine ⟨⟨?_, ?_⟩, ⟨?_, ?_⟩⟩ <;>
-  · intro h
-    have := congrArg String.toList h
-    simp [String.toList_append] at this
+theorem notYR_marks : StmtNames NotYR where
+  loop := fun y => by
+    constructor <;>
+    · intro h
+      have := congrArg String.toList h
+      simp [String.toList_append] at this
+  endloop := fun y => by
+    constructor <;>
+    · intro h
+      have := congrArg String.toList h
+      simp [String.toList_append] at this
+  value := by unfold NotYR; decide
 
 /-- **`#yield` / `#receive` are paired.**  For every function of the core fragment, every capture set that takes
     `#enter`, `#exit`, `#error` and takes `#yield` whenever it takes `#receive`, every input and driver script:
